@@ -688,3 +688,351 @@ def generate(r, size=None):
     g = Gen(r, size=size or r.choice([3, 5, 8, 12, 16]), max_depth=r.choice([1, 2, 3]))
     src = g.function()
     return src, sorted(g.features)
+
+
+# ---------------------------------------------------------------------------------------------
+# mode 2: generic functions whose return type is a bare type parameter, instantiated with None,
+# tuples (0/1/2 elements, nested), structs, options, arrays, function values -- in value,
+# statement, argument, unpacking and return position; direct calls, method calls, function values
+
+GENERIC_PRELUDE = '''import guppylang
+guppylang.enable_experimental_features()
+from collections.abc import Callable
+from typing import Generic
+from guppylang import guppy
+from guppylang.std.builtins import owned, array
+from guppylang.std.option import Option, some, nothing
+from guppylang.std.quantum import qubit, discard, h
+
+T = guppy.type_var("T")
+S = guppy.type_var("S")
+L = guppy.type_var("L", copyable=False, droppable=False)
+A = guppy.type_var("A", copyable=False, droppable=True)
+
+
+@guppy.struct
+class P:
+    x: int
+    y: int
+
+
+@guppy.struct
+class Q:
+    q: qubit
+    x: int
+
+
+@guppy.struct
+class Box(Generic[T]):
+    v: T
+
+    @guppy
+    def get(self: "Box[T]") -> T:
+        return self.v
+
+
+@guppy
+def ident(x: T) -> T:
+    return x
+
+
+@guppy
+def first(x: T, y: S) -> T:
+    return x
+
+
+@guppy
+def second(x: S, y: T) -> T:
+    return y
+
+
+@guppy
+def choose(c: bool, x: T, y: T) -> T:
+    if c:
+        return x
+    return y
+
+
+@guppy
+def ident_l(x: L @owned) -> L:
+    return x
+
+
+@guppy
+def ident_a(x: A @owned) -> A:
+    return x
+
+
+@guppy
+def run(f: Callable[[], T]) -> T:
+    return f()
+
+
+@guppy
+def app(f: Callable[[S], T], x: S) -> T:
+    return f(x)
+
+
+@guppy
+def nop() -> None:
+    pass
+
+
+@guppy
+def seven() -> int:
+    return 7
+
+
+@guppy
+def mkp() -> P:
+    return P(1, 2)
+
+
+@guppy
+def mkopt() -> Option[int]:
+    return some(4)
+
+
+@guppy
+def inc(x: int) -> int:
+    return x + 1
+
+
+@guppy
+def tofl(x: int) -> float:
+    return x + 0.5
+
+'''
+
+# kind -> (expression template with {e} an int expression, consumer of variable {v} as an int or None)
+GEN_VALUES = {
+    "none": ("None", None),
+    "none_call": ("nop()", None),
+    "tuple0": ("()", None),
+    "tuple1": ("({e},)", "{v}[0]"),
+    "tuple2": ("({e}, 2.5)", "{v}[0]"),
+    "tuple_nested": ("(({e}, 2), (3,))", "({v}[0][1] + {v}[1][0])"),
+    "struct": ("P({e}, 2)", "{v}.x"),
+    "option": ("some({e})", "{v}.unwrap()"),
+    "option_tuple": ("some(({e}, True))", "{v}.unwrap()[0]"),
+    "int": ("{e}", "{v}"),
+    "bool": ("({e} > 1)", "(1 if {v} else 0)"),
+    "func": ("inc", "{v}(2)"),
+}
+GEN_CALLS = {   # how the generic function is reached; {x} the instantiating value, {o} some other value
+    "ident": "ident({x})",
+    "first": "first({x}, {o})",
+    "second": "second({o}, {x})",
+    "choose": "choose(acc > 3, {x}, {x})",
+    "unwrap": "some({x}).unwrap()",
+    "box_get": "Box({x}).get()",
+    "nested_call": "ident(first({x}, ident({o})))",
+}
+
+
+def generate_generic(r):
+    feats = set()
+    out = Lines()
+    out.add("@guppy")
+    ret_kind = r.choice(["int", "int", "none", "tuple2", "struct"])
+    ret_ty = {"int": "int", "none": "None", "tuple2": "tuple[int, float]", "struct": "P"}[ret_kind]
+    out.add(f"def main(a0: int, c0: bool) -> {ret_ty}:")
+    out.ind = 1
+    out.add("acc = a0")
+    vars_ = []     # (name, kind) defined at top level: can instantiate later calls
+    n_uses = r.randint(3, 9)
+    for i in range(n_uses):
+        kind = r.choice(list(GEN_VALUES))
+        call = r.choice(list(GEN_CALLS))
+        tmpl, consume = GEN_VALUES[kind]
+        e = r.choice(["acc", "a0", str(r.randint(0, 9)), "(acc + 1)"])
+        same = [n for n, k in vars_ if k == kind]
+        x = r.choice(same) if same and r.random() < 0.4 else tmpl.format(e=e)
+        o = r.choice(["1", "None", "(2, 3)", "nop()", "c0", "P(1, 2)"])
+        expr = GEN_CALLS[call].format(x=x, o=o)
+        pos = r.choice(["val", "val", "stmt", "arg", "unpack", "branch", "loop"])
+        feats.add(f"g_inst_{kind}")
+        feats.add(f"g_via_{call}")
+        v = f"v{i}"
+        if pos == "unpack" and kind == "tuple2":
+            feats.add("g_pos_unpack")
+            out.add(f"p{i}, q{i} = {expr}")
+            out.add(f"acc += p{i}")
+        elif pos == "stmt":
+            feats.add("g_pos_stmt")
+            out.add(expr)
+        elif pos == "arg":
+            feats.add("g_pos_arg")
+            out.add(f"{v} = first({expr}, second({o}, acc))")
+            vars_.append((v, kind))
+            if consume:
+                out.add(f"acc += {consume.format(v=v)}")
+        elif pos == "branch":
+            # the value is produced before a branch and used after it: it travels through block rows
+            feats.add("g_pos_across_branch")
+            out.add(f"{v} = {expr}")
+            out.add(f"if c0 and acc > {r.randint(0, 5)}:")
+            out.add(f"    acc += {consume.format(v=v) if consume else '1'}")
+            out.add("else:")
+            out.add(f"    w{i} = ident({v})")
+            out.add("    acc += 2")
+            vars_.append((v, kind))
+        elif pos == "loop":
+            feats.add("g_pos_in_loop")
+            out.add(f"k{i} = 0")
+            out.add(f"while k{i} < 2:")
+            out.add(f"    {v} = {expr}")
+            out.add(f"    acc += {consume.format(v=v) if consume else '1'}")
+            out.add(f"    k{i} += 1")
+        else:
+            feats.add("g_pos_value")
+            out.add(f"{v} = {expr}")
+            vars_.append((v, kind))
+            if consume:
+                out.add(f"acc += {consume.format(v=v)}")
+        if r.random() < 0.25:
+            c = r.choice(["fv_int", "fv_struct", "fv_option", "fv_app", "lin", "arr"])
+            feats.add("g_" + c)
+            if c == "fv_int":
+                out.add("acc += run(seven)")
+            elif c == "fv_struct":
+                out.add("acc += run(mkp).y")
+            elif c == "fv_option":
+                out.add("acc += run(mkopt).unwrap()")
+            elif c == "fv_app":
+                out.add(f"fl{i} = app(tofl, app(inc, acc))")
+            elif c == "lin":
+                out.add(f"s{i} = ident_l(Q(qubit(), acc))")
+                out.add(f"t{i} = ident_l((qubit(), s{i}))")
+                out.add(f"qa{i}, sb{i} = t{i}")
+                out.add(f"discard(qa{i})")
+                out.add(f"discard(sb{i}.q)")
+                out.add(f"acc += sb{i}.x")
+            else:
+                out.add(f"ar{i} = ident_a(array(acc, 2, 3))")
+                out.add(f"acc += ar{i}[1]")
+    feats.add("g_ret_" + ret_kind)
+    if ret_kind == "int":
+        out.add("return ident(acc)")
+    elif ret_kind == "none":
+        out.add(r.choice(["return ident(None)", "return first(nop(), acc)", "return"]))
+    elif ret_kind == "tuple2":
+        out.add(r.choice(["return ident((acc, 1.5))", "return second(None, (acc, 2.5))"]))
+    else:
+        out.add("return ident(P(acc, 1))")
+    return GENERIC_PRELUDE + "\n".join(out.lines) + "\n", sorted(feats)
+
+
+# ---------------------------------------------------------------------------------------------
+# mode 3: nested functions: capturing / not  x  recursive (in a branch, in a loop) / not  x  a local
+# that shadows the function's own name (same block, later block, in a loop)  x  where it is defined
+# and how it is called
+
+NESTED_PRELUDE = '''import guppylang
+guppylang.enable_experimental_features()
+from collections.abc import Callable
+from guppylang import guppy
+
+
+@guppy
+def app(f: Callable[[int], int], x: int) -> int:
+    return f(x)
+
+'''
+
+
+def nested_body(r, name, caps, rec, shadow):
+    """lines of the body of `def name(y: int) -> int`"""
+    def cap():
+        return r.choice(caps) if caps and r.random() < 0.8 else str(r.randint(1, 4))
+    ls = []
+    if rec == "branch":
+        ls += ["if y < 1:", f"    return {cap()}", f"r = {name}(y - 1) + {cap()}"]
+    elif rec == "loop":
+        ls += ["r = 0", "i = 0", "while i < y:", f"    r += {name}(i) + {cap()}", "    i += 1"]
+    else:
+        ls += [f"r = y + {cap()}"]
+    if shadow == "same":
+        ls += [f"{name} = r + {cap()}", f"return {name}"]
+    elif shadow == "later":
+        ls += [f"{name} = r + {cap()}", "if y > 0:", f"    return {name}", f"return {cap()}"]
+    elif shadow == "loop":
+        ls += [f"{name} = 0", "j = 0", "while j < 3:", f"    {name} += r + {cap()}", "    j += 1", f"return {name}"]
+    elif r.random() < 0.5:
+        ls += ["if r > 5:", "    return r", f"return r + {cap()}"]
+    else:
+        ls += ["return r"]
+    return ls
+
+
+def generate_nested(r):
+    feats = set()
+    out = Lines()
+    out.add("@guppy")
+    out.add("def main(x: int, n: int, b: bool) -> int:")
+    out.ind = 1
+    out.add("t = x")
+    for k in range(r.randint(1, 4)):
+        name = r.choice(["f", "g", "acc", "h"]) + str(k)
+        ncap = r.choice([0, 0, 1, 2])
+        caps = r.sample(["x", "n", "t"], ncap)
+        rec = r.choice([None, None, "branch", "loop"])
+        shadow = r.choice([None, "same", "later", "later", "loop"])
+        if rec and shadow and not caps:
+            caps = ["x"]      # a non-capturing recursive function cannot re-bind its own name (rejected)
+        place = r.choice(["top", "top", "branch", "loop"])
+        depth2 = r.random() < 0.2
+        feats.add(f"n_{'cap' if caps else 'nocap'}_{rec or 'norec'}_shadow_{shadow or 'none'}")
+        feats.add(f"n_def_in_{place}")
+        if place == "branch":
+            out.add(f"if b or t > {r.randint(0, 5)}:")
+            out.ind += 1
+        elif place == "loop":
+            out.add(f"i{k} = 0")
+            out.add(f"while i{k} < 2:")
+            out.ind += 1
+        out.add(f"def {name}(y: int) -> int:")
+        out.ind += 1
+        if depth2:
+            feats.add("n_depth2")
+            inner = "in" + str(k)
+            out.add(f"def {inner}(y: int) -> int:")
+            out.ind += 1
+            for l in nested_body(r, inner, caps + ["y"], r.choice([None, "branch"]), r.choice([None, "later", "loop"])):
+                out.add(l)
+            out.ind -= 1
+            out.add(f"y = {inner}(y)")
+        for l in nested_body(r, name, caps, rec, shadow):
+            out.add(l)
+        out.ind -= 1
+        call = r.choice(["direct", "direct", "app", "twice"])
+        feats.add(f"n_call_{call}")
+        arg = r.choice(["t", "n", "2", "(t - 1)"])
+        if call == "direct":
+            out.add(f"t += {name}({arg})")
+        elif call == "app":
+            out.add(f"t += app({name}, {arg})")
+        else:
+            out.add(f"t += {name}({name}({arg}))")
+        if place == "branch":
+            out.ind -= 1
+        elif place == "loop":
+            out.add(f"i{k} += 1")
+            out.ind -= 1
+    out.add("return t")
+    return NESTED_PRELUDE + "\n".join(out.lines) + "\n", sorted(feats)
+
+
+_generate_general = generate
+
+
+def generate(r, size=None):      # noqa: F811
+    m = r.random()
+    if m < 0.70:
+        src, feats = _generate_general(r, size)
+        return src, feats + ["mode_general"]
+    if m < 0.85:
+        src, feats = generate_generic(r)
+        return src, feats + ["mode_generic_matrix"]
+    src, feats = generate_nested(r)
+    return src, feats + ["mode_nested_matrix"]
